@@ -186,6 +186,43 @@ func streamOrder(ctx *Ctx, n int, sleeps []int, depth int) {
 	}
 }
 
+// a joining process that receives several carriers from one upstream: its outputs leave in the order of the
+// carriers, also when an earlier carrier's sub-stream closes later than a later one's
+func joinOrder(ctx *Ctx, delays []string) {
+	pre := map[string]string{}
+	paths := []string{}
+	for i := range delays {
+		if i > 0 {
+			paths = append(paths, "|")
+		}
+		for j := 0; j < 2; j++ {
+			p := fmt.Sprintf("m%d_%d.txt", i, j)
+			pre[p] = p + "\n"
+			paths = append(paths, p)
+		}
+	}
+	d := &Desc{Name: "c08join", Max: 4, Nodes: []Node{{Name: "car", Kind: "carriers", Paths: paths, Values: delays},
+		{Name: "join", Kind: "proc", Cmd: "( cat {i:in|join: } > {o:out} )", Outs: map[string]string{"out": "{i:in}.joined"}},
+		{Name: "rec", Kind: "recorder"}},
+		Edges: []Edge{{From: "car.substream", To: "join.in"}, {From: "join.out", To: "rec.in"}}}
+	rr := RunWorkflow(d, RunOpts{Pre: pre, Timeout: 30e9})
+	defer os.RemoveAll(rr.Dir)
+	ctx.Res.Eval(fmt.Sprintf("join-order delays=%v", delays), true, delays)
+	ctx.Res.Count("joined-in-port")
+	if rr.Exit != 0 {
+		ctx.Res.Disagree(Violation{What: fmt.Sprintf("join order workflow exited %d: %s", rr.Exit, tail(rr.Stderr)), Witness: delays})
+		return
+	}
+	got := readRec(rr.Dir, "rec")
+	want := []string{}
+	for i := range delays {
+		want = append(want, fmt.Sprintf("c%d.carrier.joined", i))
+	}
+	if strings.Join(got, ",") != strings.Join(want, ",") {
+		ctx.Res.Violate(Violation{What: fmt.Sprintf("the joining process emitted %v, its carriers arrived in the order %v (sub-streams closing after %v ms)", got, want, delays), Class: "c08.order", Witness: delays})
+	}
+}
+
 func checkC08(ctx *Ctx) {
 	ctx.Res.Rule = "chains of 1-3 processes over 2-8 items whose per-item command durations are random (later items usually finish long before earlier ones; in a third of the cases the outputs of some items exist before the run, so that their tasks are skipped), maxConcurrentTasks 1-8, SCIPIPE_BUFSIZE 1-3 or 128, optional fan-in of a second upstream into the last port; recorder components after every process; non-trivial = some later item is faster than an earlier one and more than one slot; distinct by case. Checks: recorded order equals arrival order on every out-port, per-sender order through fan-in, counts, and per process goroutine the hook trace's dequeue sequence is a prefix of its accept sequence."
 	r := NewRng(ctx.Seed)
@@ -211,6 +248,8 @@ func checkC08(ctx *Ctx) {
 			runC08(ctx, cases[i])
 		}
 	})
+	joinOrder(ctx, []string{"400", "200", "0"})
+	joinOrder(ctx, []string{"0", "300"})
 	streamOrder(ctx, 4, []int{90, 60, 30, 1}, 0)
 	streamOrder(ctx, 3, []int{1, 80, 1}, 0)
 	streamOrder(ctx, 6, []int{1, 1, 1, 1, 1, 1}, 300)
